@@ -41,7 +41,8 @@ BOUNDARY = (list(range(56, 72)) + list(range(124, 132)) + list(range(193, 201)) 
             + [510, 511, 512, 513, 1023, 1024, 2047, 2048, 2049, 4095, 4096]
             + list(range(55230, 55241)) + list(range(57280, 57291)) + list(range(65470, 65481))
             + [100000, 1000000] + list(range(1114040, 1114053)))
-UNREPRESENTABLE = [-1, -70, 1114053, 2 ** 31, 2 ** 32 - 60, 2 ** 32 - 59, 2 ** 32, 2 ** 32 + 5, 2 ** 33, 2 ** 40 + 7]
+UNREPRESENTABLE = [-1, -70, 1114053, 2 ** 31, 2 ** 32 - 60, 2 ** 32 - 59, 2 ** 32, 2 ** 32 + 5, 2 ** 33, 2 ** 40 + 7,
+                   2.7, 0.5, 68.5, 1234.25, -0.5]
 
 
 def enumerate_cases(tier):
@@ -182,15 +183,21 @@ def check_case(case, ctx):
         ctx.label("enumerated:exponents")
         return fails
     if "bad_exps" in case:
+        ctors = (("polynomial_from_attributes", lambda e: numpoly.polynomial_from_attributes([[e]], [1])),
+                 ("ndpoly", lambda e: numpoly.ndpoly(exponents=[[e]])),
+                 ("polynomial(dict)", lambda e: numpoly.polynomial({(e,): 1})),
+                 ("ndpoly.from_attributes", lambda e: numpoly.ndpoly.from_attributes([[e]], [1])))
         for e in case["bad_exps"]:
-            try:
-                p = numpoly.polynomial_from_attributes([[e]], [1])
-            except Exception:
-                continue
-            if p.exponents.tolist() != [[e]]:
-                fails.append(Failure("unrepresentable:accepted", "exponent %d accepted and stored as %s"
-                                     % (e, p.exponents.tolist()), case={"bad_exps": [e]}))
-                break
+            for cname, ctor in ctors:
+                try:
+                    p = ctor(e)
+                except Exception:
+                    continue
+                if p.exponents.tolist() != [[e]]:
+                    key = "unrepresentable:accepted" + (":fractional" if isinstance(e, float) else "")
+                    if not any(f.bucket == key for f in fails):
+                        fails.append(Failure(key, "%s: exponent %r accepted and stored as %s"
+                                             % (cname, e, p.exponents.tolist()), case={"bad_exps": [e]}))
         ctx.add_evals(len(case["bad_exps"]), len(case["bad_exps"]))
         ctx.label("enumerated:unrepresentable")
         return fails
